@@ -4,6 +4,14 @@
 # passes without it. On success copies the artefacts to /verif/seeded/<ID>/<name>/ and records what was run.
 SRC=$1; DEST=/verif/seeded/$2
 W=/tmp/w/me
+if [ ! -d $W/repo ]; then   # scratch worktree + rust build kit (outside /repo and /verif; remove with `git -C /repo worktree remove --force /tmp/w/me/repo`)
+  mkdir -p $W/kit/rust/demo/src
+  git -C /repo worktree add -q --detach $W/repo HEAD || exit 2
+  cp -r /verif/rust/vendor /verif/rust/zip-shim /verif/rust/core-shadow /verif/rust/.cargo $W/kit/rust/
+  printf '[workspace]\nmembers = ["zip-shim", "core-shadow", "demo"]\nresolver = "2"\n[profile.release]\nopt-level = 2\ndebug = false\n' > $W/kit/rust/Cargo.toml
+  printf '[package]\nname = "demo"\nversion = "0.1.0"\nedition = "2021"\n[dependencies]\nsc62015-core = { path = "../core-shadow" }\nserde_json = "1.0"\n' > $W/kit/rust/demo/Cargo.toml
+  echo 'fn main() {}' > $W/kit/rust/demo/src/main.rs
+fi
 git -C $W/repo checkout -q --detach $(git -C /repo rev-parse HEAD) && git -C $W/repo checkout -- . || exit 2
 git -C $W/repo apply $SRC/patch.diff || { echo "PATCH DOES NOT APPLY"; exit 2; }
 run_demo() {
